@@ -816,6 +816,13 @@ class Prims:
             if attr in ("astype", "copy", "tolist", "squeeze", "ravel", "flatten", "to_numpy"):
                 return obj
             if attr == "reshape":
+                shp = args[0] if len(args) == 1 else tuple(args)
+                if isinstance(shp, tuple) and len(shp) == 2:
+                    from .arr2 import reshape_seq
+
+                    if isinstance(shp[1], int) and shp[1] == -1:
+                        ex.oblige(st, to_z3(shp[0]) == obj.length, ex._name("reshape", node), f"line {node.lineno}: reshape((n, -1)) of a length-n array gives one column")
+                    return reshape_seq(obj, shp)
                 return obj
             if attr == "sum":
                 return psum(ex, st, obj)(obj.length)
